@@ -167,6 +167,26 @@ impl<'a> World<'a> {
 
     pub(super) fn feed(&mut self, ctx: &mut Ctx, ep: usize, bytes: &[u8]) -> Option<Violation> {
         ctx.logf(|| format!("  feed {} with {} bytes: {}", ["A", "B"][ep], bytes.len(), hex(bytes)));
+        if self.cfg.stateless_accept && ep == 1 && !self.injecting && self.s[1].conn.state_name() == "Pending" && bytes.len() >= 4 && bytes[0] & 0x30 == 0x10 && bytes[3] == 3 {
+            if let Some(t) = self.s[1].conn.expected_token() {
+                if bytes.len() >= 8 && bytes[bytes.len() - 4..] == t {
+                    // the server keeps no state until the client proved it owns its address
+                    let side = &mut self.s[1];
+                    side.cb.calls = 0;
+                    let cb = &mut side.cb;
+                    match guard(move || AnyConn::new_accept_token(cb, t)) {
+                        Ok(c) => {
+                            self.s[1].conn = c;
+                            self.s[1].may_send = true;
+                            ctx.count("probe_stateless_accept");
+                            ctx.logf(|| "  B: Connection::new_accept_token (stateless accept)".into());
+                            return None;
+                        }
+                        Err(p) => return self.on_panic(ctx, 1, Call::Feed, p),
+                    }
+                }
+            }
+        }
         let unacked_before = self.s[ep].conn.unacked();
         let r = self.api(ctx, ep, Call::Feed, |c, cb| c.feed(cb, bytes));
         match r {
@@ -454,6 +474,7 @@ impl<'a> World<'a> {
                     _ => "probe_disconnect_handshake",
                 });
                 self.s[ep].closed = true;
+                self.s[ep].close_reason = Some(reason.clone());
                 self.api(ctx, ep, Call::Disconnect, move |c, cb| c.disconnect(cb, &reason)).err()
             }
             NetOp::SendConnless { ep, len, tag } => {
